@@ -373,7 +373,7 @@ def long_case(case, res):
                 out = pb.snippet(z, targ, n)
             except Exception as e:
                 res.transitions += 1
-                if form != "float" and isinstance(e, ValueError) and abs(teff + n - N) <= F(1, 10 ** 6):
+                if form != "float" and isinstance(e, ValueError) and abs(teff + n - N) <= F(1, 10 ** 6) + 8 * ULP_T * 86400 * srx:
                     # Quantity/Time request exactly on the boundary: the float conversion may land a rounding outside
                     res.skipped["Quantity/Time request exactly on the boundary (float conversion may land either side)"] += 1
                     continue
